@@ -63,6 +63,30 @@ def run_requests(ctx, tag, gen):
     b = os.path.join(ctx.work, tag + ".model")
     rc1, e1 = t2nlib.run_exec(t2nlib.HARNESS_BIN, reqp, a)
     rc2, e2 = t2nlib.run_exec(t2nlib.DRIVER_BIN, reqp, b, args=("--cc", t2nlib.ensure_cc_table()))
+    aborted = []
+    guard = 0
+    while rc1 != 0 and guard < 20:
+        # the harness process died (stack overflow, abort): the first unanswered request is the culprit; answer it
+        # `ABORT` and run the rest
+        guard += 1
+        with open(a, "rb") as fa_:
+            data = fa_.read()
+        done = data.count(b"\n")
+        with open(a, "wb") as fa_:
+            fa_.write(data[:data.rfind(b"\n") + 1] if done else b"")
+            fa_.write(("ABORT rc=%d\n" % rc1).encode())
+        with open(reqp, encoding="utf-8") as fr_:
+            all_reqs = fr_.read().split("\n")
+        aborted.append(all_reqs[done] if done < len(all_reqs) else "?")
+        rest = all_reqs[done + 1:]
+        restp = reqp + ".rest"
+        with open(restp, "w", encoding="utf-8") as fr_:
+            fr_.write("\n".join(rest))
+        rc1, e1 = t2nlib.run_exec(t2nlib.HARNESS_BIN, restp, a + ".rest")
+        with open(a, "ab") as fa_, open(a + ".rest", "rb") as fb_:
+            fa_.write(fb_.read())
+        os.unlink(restp)
+        os.unlink(a + ".rest")
     if rc1 != 0:
         raise RuntimeError("harness exec failed rc=%d: %s" % (rc1, e1))
     if rc2 != 0:
@@ -156,7 +180,46 @@ def stream_gen(ctx, name):
     if name.startswith("scan:"):
         _, lang = name.split(":")
         return lambda o: streams.s_scan(lang, tier, seed, o)
+    if name.startswith("pfx:"):
+        _, lang = name.split(":")
+        return lambda o: s_prefix(ctx, lang, o)
     raise KeyError(name)
+
+
+def s_prefix(ctx, lang, out):
+    """Prefix closure: every proper or full prefix of a spelled number (from the Lean speller: boundary numbers, the
+    longest spellings, random large numbers, some ordinals) followed by EVERY multiplier / scale / conjunction /
+    separator / zero word of the language and a sample of the rest of the vocabulary — validated and scanned. This reaches
+    the builder states real numbers pass through, and the refusals right after them."""
+    import oracles, re
+    from t2nlib import SplitMix64, esc, unesc
+    rng = SplitMix64(ctx.seed * 31337 + len(lang) + ord(lang[1]))
+    nums = oracles.long_numbers(ctx, lang)[:: 6 if ctx.tier != "thorough" else 1]
+    nums += [a * 10 ** 3 + b for a in oracles.BOUNDARY[::6] for b in oracles.BOUNDARY[::7]]
+    for _ in range(120 if ctx.tier != "thorough" else 20000):
+        g = [rng.below(1000) if rng.chance(2, 3) else rng.choice([0, 1, 10, 12, 100, 101, 512, 999]) for _ in range(4)]
+        nums.append((g[0] * 10 ** 9 + g[1] * 10 ** 6 + g[2] * 10 ** 3 + g[3]) % 10 ** 12)
+    gl = ["gen\tcard\t%s\t%d\t%d" % (lang, n_, rng.below(10 ** 6) if rng.chance(1, 2) else 0) for n_ in nums]
+    ordmax, ninfl = oracles.ORD_SPEC[lang]
+    gl += ["gen\tord\t%s\t%d\t0\t%d" % (lang, 1 + rng.below(ordmax), rng.below(ninfl)) for _ in range(40 if ctx.tier != "thorough" else 2000)]
+    phrases = [unesc(ph) for (g, ph, e) in oracles._spec_cases(ctx, "pfx" + lang, gl)]
+    words = [w for w in streams.bank(lang)["num"] if w and " " not in w]
+    key = [w for w in words if re.search(r"illi|ilj|ilh|ilh|thousand|tausend|duizend|^mil$|^mille$|^mila$|hundred|hundert|honderd|^cent|^cem$|^cien|^and$|^et$|^und$|^en$|^y$|^e$|zero|z\u00e9ro|cero|null?$|^o$|nought", w)]
+    key += [streams.DECSEP[lang].lower()]
+    n = 0
+    for ph in phrases:
+        ws = ph.split(" ")
+        for k in range(1, len(ws) + 1):
+            pre = " ".join(ws[:k])
+            nxt = key + [rng.choice(words) for _ in range(3)]
+            for w in nxt:
+                t = pre + " " + w
+                out.write("val\t%s\t%s\n" % (lang, esc(t)))
+                n += 1
+                if k == len(ws) or rng.chance(1, 4):
+                    out.write("occ\t%s\t%s\t%s\n" % (lang, "0000000000000000", esc(t + " x")))
+                    n += 1
+    return n
 
 
 def run_stream(ctx, name):
@@ -212,18 +275,18 @@ def _apply_all():
 
 
 PROPS = {
-    "C01": dict(module="T2N.Props.C01", streams=_apply_all() + ["ds"], oracles=["c01"]),
+    "C01": dict(module="T2N.Props.C01", streams=_apply_all() + ["ds"] + all_langs("pfx"), oracles=["c01"]),
     "C02": dict(module="T2N.Props.C02", streams=["script", "tok", "text:en", "text:fr", "text:de"], oracles=["c02"]),
     "C03": dict(module="T2N.Props.C03", streams=["ds", "script", "tok", "val:en", "val:it"], oracles=["c03"]),
     "C04": dict(module="T2N.Props.C04", streams=_apply_all(), oracles=["c04"]),
     "C05": dict(module="T2N.Props.C05", streams=_apply_all() + ["script"], oracles=["c05"]),
     "C06": dict(module="T2N.Props.C06", streams=["script"] + all_langs("scan"), oracles=["c06"]),
-    "C07": dict(module="T2N.Props.C07", streams=_apply_all() + ["ds", "script", "scan:en", "scan:nl"], oracles=["c07"]),
+    "C07": dict(module="T2N.Props.C07", streams=_apply_all() + ["ds", "script", "scan:en", "scan:nl"] + all_langs("pfx"), oracles=["c07"]),
     "C08": dict(module="T2N.Props.C08", streams=_apply_all(), oracles=["c08"]),
     "C09": dict(module="T2N.Props.C09", streams=["script", "scan:en", "scan:fr"], oracles=["c09"]),
     "C10": dict(module="T2N.Props.C10", streams=["script", "annot", "text:fr", "text:en"], oracles=["c10"]),
     "C11": dict(module="T2N.Props.C11", streams=all_langs("scan") + ["text:en", "text:de"], oracles=["c11"]),
-    "C12": dict(module="T2N.Props.C12", streams=["ds"], oracles=["c12"]),
+    "C12": dict(module="T2N.Props.C12", streams=["ds", "pfx:en", "pfx:fr", "pfx:de"], oracles=["c12"]),
     "C13": dict(module="T2N.Props.C13", streams=["lookup"] + all_langs("applyface") + all_langs("textface"), oracles=["c13"]),
     "C14": dict(module="T2N.Props.C14", streams=["text:nl", "text:it"], oracles=["c14"]),
     "C15": dict(module="T2N.Props.C15", streams=["script", "scan:en", "scan:de", "scan:fr"], oracles=["c15"]),
